@@ -8,6 +8,7 @@ from pyvc import source, engine, vc as vcmod          # noqa: E402
 from pyvc.core import Undecided, StaleContract         # noqa: E402
 
 VENV_PY = '/venv/bin/python'
+GLOBAL_LEMMAS = ['SUM/count-bounds']        # justify facts the engine instantiates by itself; proved on every run of every property
 
 
 def load_all():
@@ -59,7 +60,7 @@ def generate(prop, spec, repo, C, defs, classes, LEMMAS, mode_filter=None):
         tag = ('[%s]' % ','.join(modetag(v) for v in opts.values())) if opts else ''
         for x in v: x.name = '%s/%s%s/%s' % (prop, key.split(':')[1], tag, x.name); x.mode = opts
         vcs += v; infos.append(info)
-    for name in spec.get('lemmas', []):
+    for name in list(spec.get('lemmas', [])) + [l for l in GLOBAL_LEMMAS if spec.get('lemmas') is not None and l not in spec.get('lemmas', [])]:
         ex = engine.Exec(repo, C, classes, defs, model_modules()); ex.all_lemmas = LEMMAS
         try:
             v, info = ex.verify_lemma(name, LEMMAS[name])
